@@ -16,6 +16,9 @@ violated side condition of the proof (signature) or `unexplained-difference`.
 namespace HapVerif.C01
 open HapVerif.Drv
 
+/-- the revision of /repo the driver mirrors (see `Rev`) -/
+def currentRev : Rev := 1
+
 def unq (s : String) : String := if s = "_" then "" else s
 def parseOpt (s : String) : Option String := if s = "-" then none else some (unq s)
 
@@ -156,7 +159,7 @@ def partitionStr (t : Tr Node) : String :=
   "|".intercalate (sortStr ((components t).map fun c => joinC (sortStr (c.map nodeStr))))
 
 def hostsStr (st : St) : String :=
-  joinC (sortStr (st.hosts.flatMap fun h =>
+  joinC (sortStr ((st.hosts.filter (·.live)).flatMap fun h =>
     if h.paths.isEmpty then [h.name ++ "^^^"]
     else h.paths.map fun p => h.name ++ "^" ++ p.path ++ "^" ++ p.mtch ++ "^" ++ p.back))
 
@@ -204,10 +207,10 @@ def doSync (r : Run) (obs? : Option String) : Run :=
   let dB := namesOf .back out
   let mirrorOk := full || mirrorAgrees st1.tr b.links
   let sig := if full || r.sig.isSome then r.sig else
-    if !(lateBacks w b old).isEmpty then some "late-ref-surviving-backend"
-    else if !(lateHosts w b old).isEmpty then some "late-ref-surviving-host"
+    if !(lateBacks currentRev w b old).isEmpty then some "late-ref-surviving-backend"
+    else if !(lateHosts currentRev w b old).isEmpty then some "late-ref-surviving-host"
     else none
-  let c' := reconcile w b r.c
+  let c' := reconcile currentRev w b r.c
   let new := c'.st
   let k := r.k + 1
   let mism := if r.mism.isSome then r.mism else
@@ -217,13 +220,13 @@ def doSync (r : Run) (obs? : Option String) : Run :=
       let f := o.splitOn ";"
       let chk (name model impl : String) : Option String :=
         if model = impl then none else some s!"sync{k}:{name}:model={model}:impl={impl}"
-      let oldH := old.hosts.map (·.name)
-      let newH := new.hosts.map (·.name)
+      let oldH := (old.hosts.filter (·.live)).map (·.name)
+      let newH := (new.hosts.filter (·.live)).map (·.name)
       let oldB := old.backs.map (·.id)
       let newB := new.backs.map (·.id)
       let explained (u oldL newL dirty : List String) : Bool :=
         if full then u.all (fun x => x ∈ oldL ∨ x ∈ newL) && newL.all (fun x => x ∈ oldL ∨ x ∈ u) && oldL.all (fun x => x ∈ newL ∨ x ∈ u)
-        else u.all (fun x => if x ∈ oldL then x ∈ dirty ∨ x ∈ lateBacks w b old ∨ x ∈ lateHosts w b old else x ∈ newL) &&
+        else u.all (fun x => if x ∈ oldL then x ∈ dirty ∨ x ∈ lateBacks currentRev w b old ∨ x ∈ lateHosts currentRev w b old else x ∈ newL) &&
           newL.all (fun x => x ∈ oldL ∨ x ∈ u) && oldL.all (fun x => x ∈ newL ∨ x ∈ u)
       let checks : List (Option String) := [
         chk "mode" (if full then "F" else "P") (f.headD "?"),
@@ -255,10 +258,12 @@ def handle (args : List String) (impl : String) : Verdict :=
       let verdict := iw.headD "?"
       let obs := iw.drop 1
       let inFrag := toks.all fun | .op o => opInFragment o | _ => true
+      let hasTCP := toks.any fun | .op (.ingSet i) => i.ann.any (·.1 = "tcp-service-port") | _ => false
       let oracleOf (sig : Option String) : Option String :=
         if verdict = "eq" then none
         else if verdict.startsWith "diff:" then
-          some (if !inFrag then "outside-model-difference" else sig.getD "unexplained-difference")
+          some (if !inFrag then (if hasTCP then "tcp-service-difference" else "outside-model-difference")
+                else sig.getD "unexplained-difference")
         else some ("error-" ++ ((verdict.splitOn ":").getD 1 "?" |>.take 40).toString)
       if !inFrag then
         { model := "outside-fragment", agree := true, oracle := oracleOf none, trivial := true }
